@@ -8,8 +8,8 @@ ALL3 = {"C", "E", "U"}
 # quick tier: the fixed parameter slices q11_* of OpsMerge.tla (SliceOf), two TLC processes
 QUICK = [
     ("slices q11_merge", dict(Slices={"q11_merge"})),
-    ("slices q11_sync q11_error q11_mapped q11_hot q11_srcs q11_dispose q11_take",
-     dict(Slices={"q11_sync", "q11_error", "q11_mapped", "q11_hot", "q11_srcs", "q11_dispose", "q11_take"})),
+    ("slices q11_sync q11_fb q11_error q11_mapped q11_hot q11_srcs q11_dispose q11_take",
+     dict(Slices={"q11_sync", "q11_fb", "q11_error", "q11_mapped", "q11_hot", "q11_srcs", "q11_dispose", "q11_take"})),
 ]
 
 THOROUGH = [
